@@ -1,5 +1,105 @@
-From Cam Require Import XmlFetch P_C14.
+(* C14 — device description retrieval returns exactly the newest device XML or fails.
+   Statements only; proofs in proofs/P_C14.v.  Model: model/XmlFetch.v (genapi as written);
+   vocabulary: spec/ManifestSpec.v (manifest table in device memory, newest_at, doc_spec,
+   honest_reads / conforming_reads = what is assumed about DeviceControl::read, the subject of
+   C06 / C07).  [sha1] and [unzip] are oracles: every theorem holds for all of them. *)
+From Cam Require Import XmlFetch ManifestSpec P_C14.
 
+(* The loop over the manifest entries, on a device that may fail but does not lie: it never panics,
+   and when it completes every entry has a valid file type and the candidate it kept is the entry
+   (address, version, file info) of the DeviceXml entry with the greatest (major, minor, sub-minor),
+   the first among equals; no candidate iff the table has no DeviceXml entry. *)
+Theorem C14_selects_newest :
+  forall (good : st -> Prop) segs t es (xs : xst) r xs',
+  honest_reads good -> good (snd xs) -> w_segs (snd (snd xs)) = segs -> entries_at segs (t + 8) es ->
+  scan (length es) (t + 8) 0 None xs = (r, xs') ->
+  r <> Panic /\
+  forall nw, r = Ok nw ->
+    Forall valid_type es /\
+    match nw with
+    | Some (a, v, inf) =>
+      exists i e, newest_at es i e /\ a = t + 8 + Z.of_nat i * 64 /\ v = vkey e /\ inf = me_info e
+    | None => forall e, In e es -> ~ is_dev e
+    end.
+Proof. exact selects_newest. Qed.
+Print Assumptions C14_selects_newest.
+
+(* Conforming device, table es at the known manifest address, all file types valid, e the newest
+   DeviceXml entry, its file inside device memory, hash absent or equal to sha1(file), format plain
+   or a zip holding exactly one readable member: genapi returns exactly that text (and leaves the
+   device memory and the handle's good standing untouched). *)
+Theorem C14_returns_file :
+  forall sha1 unzip (good : st -> Prop) x s t es i e text,
+  conforming_reads good -> good s -> manifest_known (x_mt x) (w_segs (snd s)) t ->
+  table_at (w_segs (snd s)) t es -> t + 8 < 2 ^ 64 -> Forall valid_type es ->
+  newest_at es i e -> me_size e < 2 ^ 63 -> doc_spec sha1 unzip lossy (w_segs (snd s)) e text ->
+  exists xs', genapi sha1 unzip (x, s) = (Ok text, xs') /\
+              good (snd xs') /\ w_segs (snd (snd xs')) = w_segs (snd s).
+Proof. exact genapi_returns_file. Qed.
+Print Assumptions C14_returns_file.
+
+(* A device that may fail at any transaction but does not lie: whatever genapi returns as Ok is the
+   document of the newest DeviceXml entry (file read from its advertised address and size, hash
+   checked when present, unzipped when flagged) — never another document; a panic is possible only
+   if some entry advertises a file size >= 2^63 (known finding). *)
+Theorem C14_never_other_document :
+  forall sha1 unzip (good : st -> Prop) x s t es r xs',
+  honest_reads good -> good s -> manifest_known (x_mt x) (w_segs (snd s)) t ->
+  table_at (w_segs (snd s)) t es ->
+  genapi sha1 unzip (x, s) = (r, xs') ->
+  (good (snd xs') /\ w_segs (snd (snd xs')) = w_segs (snd s)) /\
+  (r = Panic -> exists e, In e es /\ 2 ^ 63 <= me_size e) /\
+  (forall text, r = Ok text -> result_spec sha1 unzip lossy (w_segs (snd s)) es text).
+Proof. exact genapi_sound. Qed.
+Print Assumptions C14_never_other_document.
+
+(* No DeviceXml entry / an entry with an invalid file type / the newest entry's file outside device
+   memory / hash present and different from sha1(file) / unknown file format / zip flagged and the
+   archive corrupt, not holding exactly one file, or its member unreadable  ==>  Err. *)
+Theorem C14_errors :
+  forall sha1 unzip (good : st -> Prop) x s t es r xs',
+  honest_reads good -> good s -> manifest_known (x_mt x) (w_segs (snd s)) t ->
+  table_at (w_segs (snd s)) t es -> (forall e, In e es -> me_size e < 2 ^ 63) ->
+  genapi sha1 unzip (x, s) = (r, xs') ->
+  ((forall e, In e es -> ~ is_dev e) \/
+   (exists e, In e es /\ ~ valid_type e) \/
+   (exists i e, newest_at es i e /\
+      (mem_read (w_segs (snd s)) (me_addr e) (me_size e) = None \/
+       exists file, mem_read (w_segs (snd s)) (me_addr e) (me_size e) = Some file /\
+         ((~ hash_absent (me_hash e) /\ sha1 file <> me_hash e) \/
+          (file_format e <> 0 /\ file_format e <> 1) \/
+          (file_format e = 1 /\ forall xml, unzip file <> Some [Some xml]))))) ->
+  exists c, r = Err c.
+Proof. exact genapi_error_cases. Qed.
+Print Assumptions C14_errors.
+
+(* Any device whatsoever (lying, hostile, any state of the handle): if DeviceControl::read never
+   panics (C07), genapi panics only when some register read returned a value >= 2^63 — the
+   `vec![0; file_size]` capacity overflow of the known finding; in particular the corrupt-archive
+   path is an error, not a panic. *)
+Theorem C14_no_panic :
+  forall sha1 unzip,
+  (forall a n s, fst (ctl_read a n s) <> Panic) ->
+  forall xs, fst (genapi sha1 unzip xs) = Panic ->
+  exists v, (exists a n s0 s1, read_reg a n s0 = (Ok v, s1)) /\ 2 ^ 63 <= v.
+Proof. exact genapi_no_panic. Qed.
+Print Assumptions C14_no_panic.
+
+(* String::from_utf8_lossy is the identity on ASCII documents: the text is the file. *)
 Theorem C14_text_ascii : forall bs, Forall (fun b => 0 <= b < 128) bs -> lossy bs = bs.
 Proof. exact lossy_ascii. Qed.
 Print Assumptions C14_text_ascii.
+
+(* The code before the repair (ZipArchive::new(..).unwrap()): a file flagged as zip that is not an
+   archive panics; the repaired code returns InvalidDevice. *)
+Theorem C14_zip_v0_refuted :
+  exists sha1 unzip xs,
+    fst (genapi_v0 sha1 unzip xs) = Panic /\ fst (genapi sha1 unzip xs) = Err CE_INVALID_DEVICE.
+Proof. exact zip_v0_refuted. Qed.
+Print Assumptions C14_zip_v0_refuted.
+
+(* Known finding: an advertised file size of 2^63 panics (capacity overflow of vec![0; n]). *)
+Theorem C14_absurd_size_refuted :
+  exists sha1 unzip xs, fst (genapi sha1 unzip xs) = Panic.
+Proof. exact absurd_size_refuted. Qed.
+Print Assumptions C14_absurd_size_refuted.
